@@ -1,6 +1,9 @@
 #!/bin/bash
 # Sensitivity self-test: every reverse patch of a fix must be caught by the listed checks.
 set -u
+# evidence and replay files of runs against a deliberately broken tree go to a scratch directory
+export SIMPLC_OUT_DIR="${SIMPLC_OUT_DIR:-/tmp/simplc-sensitivity-out}"
+mkdir -p "$SIMPLC_OUT_DIR"
 cd /verif
 declare -A EXPECT=(
  [1ac9947]="C06 C03" [474d91c]="C06 C03" [b5b971c]="C12" [c217e1a]="C12" [201f5d4]="C12 C11"
@@ -21,5 +24,5 @@ for c in "${!EXPECT[@]}"; do
   done
   git -C /repo checkout -- .
 done
-rm -f /verif/replays/*.json
+rm -rf "$SIMPLC_OUT_DIR"
 exit $fail
